@@ -246,10 +246,30 @@ func refParse(kind string, b []byte) (reasons []string, pts []hx.RPt, scalar *bi
 	return
 }
 
+// c10Raw is the same check on explicit bytes (fuzz inputs and their replay files).
+type c10Raw struct {
+	Kind   string `json:"kind"`
+	Bytes  string `json:"bytes"`
+	Reader string `json:"reader"`
+	Chunk  int    `json:"chunk,omitempty"`
+}
+
+func evalC10Raw(r c10Raw, rec *hx.Rec) error {
+	return evalC10Bytes(c10Case{Kind: r.Kind, Reader: r.Reader, Chunk: r.Chunk, Field: -1, WriteAt: 0}, hx.BytesHex(r.Bytes), rec)
+}
+
+var c10RawPart = hx.NewPart("C10", "raw", func(t *rapid.T) c10Raw {
+	c := genC10(t)
+	return c10Raw{Kind: c.Kind, Bytes: hx.HexBytes(c.bytesOf()), Reader: []string{"whole", "dataeof", "onebyte", "chunks"}[c.Chunk%4], Chunk: c.Chunk}
+}, evalC10Raw)
+
 func evalC10(c c10Case, rec *hx.Rec) error {
-	rec.Eval(1)
 	rec.Sample(c)
-	b := c.bytesOf()
+	return evalC10Bytes(c, c.bytesOf(), rec)
+}
+
+func evalC10Bytes(c c10Case, b []byte, rec *hx.Rec) error {
+	rec.Eval(1)
 	orig := append([]byte(nil), b...)
 	reasons, pts, scalar := refParse(c.Kind, b)
 	np := c.nPoints()
@@ -448,5 +468,6 @@ func TestC10(t *testing.T) {
 			}
 		}
 	}
-	c10Part.Run(s, hx.PerShard(hx.Pick(16000, 400000)))
+	c10Part.Run(s, hx.PerShard(hx.Pick(64000, 800000)))
+	c10RawPart.Run(s, hx.PerShard(hx.Pick(6400, 80000)))
 }
